@@ -63,7 +63,8 @@ def shapeOf (j : Option Json) : R Gen.C04.Shape :=
            initChecks := ← g "initChecks" d.initChecks, cliDrainOverErr := ← g "cliDrainOverErr" d.cliDrainOverErr,
            cliDrainSurvivesCb := ← g "cliDrainSurvivesCb" d.cliDrainSurvivesCb,
            unaryDrainOnCb := ← g "unaryDrainOnCb" d.unaryDrainOnCb, hdrDrainOnCb := ← g "hdrDrainOnCb" d.hdrDrainOnCb,
-           hdrAbortCloses := ← g "hdrAbortCloses" d.hdrAbortCloses }
+           hdrAbortCloses := ← g "hdrAbortCloses" d.hdrAbortCloses,
+           emptyRequestReplies := ← g "emptyRequestReplies" d.emptyRequestReplies }
 
 def resName : Res → String
   | .none => "none" | .value => "value" | .error => "error" | .data => "data" | .fin => "end" | .raised => "raised"
@@ -117,7 +118,7 @@ def handle (fn : String) (a : Json) : R Json := do
                ("drainUnknown", ofBool d.drainUnknown), ("initChecks", ofBool d.initChecks),
                ("cliDrainOverErr", ofBool d.cliDrainOverErr), ("cliDrainSurvivesCb", ofBool d.cliDrainSurvivesCb),
                ("unaryDrainOnCb", ofBool d.unaryDrainOnCb), ("hdrDrainOnCb", ofBool d.hdrDrainOnCb),
-               ("hdrAbortCloses", ofBool d.hdrAbortCloses),
+               ("hdrAbortCloses", ofBool d.hdrAbortCloses), ("emptyRequestReplies", ofBool d.emptyRequestReplies),
                ("structural", obj (Gen.C04.structural.map fun (k, v) => (k, ofBool v)))])
   | _ => throw s!"unknown function C04.{fn}"
 
